@@ -76,6 +76,7 @@ func StrPtrEq(a, b *string) bool               { panic("intrinsic") }
 func Int64PtrEq(a, b *int64) bool              { panic("intrinsic") }
 func HasPrefix(s, p string) bool               { panic("intrinsic") }
 func GrpcCode(err error) int                   { panic("intrinsic") }
+func ServeRegistered(kind int) any              { panic("intrinsic") }
 func IgnoreGo()                                { panic("intrinsic") }
 func SchedulerMayRefuse()                      { panic("intrinsic") }
 // GinContext: wildcards are the catch-all route parameters (*name), which gin delivers with a leading "/".
